@@ -36,7 +36,7 @@ def options_strategy():
     @st.composite
     def opt(draw):
         o = {"eeps": 10 ** draw(st.floats(-14., -8.)), "seps": 10 ** draw(st.floats(-4., 2.)),
-             "substeps": draw(st.integers(2, 12))}
+             "substeps": draw(st.integers(4, 12))}
         if draw(st.booleans()):
             o["stiffness"] = draw(st.sampled_from(g.STIFFNESS_TYPES))
         if draw(st.integers(0, 3)) == 0:
@@ -59,6 +59,11 @@ def options_strategy():
         elif mode == "dynamic":
             o["dynamic"] = True
             o["maxdt_fraction"] = draw(st.floats(0.07, 1.5))  # x the smallest requested step
+            # without @MinimalTimeStep the end-of-period clamp of GenericSolver::execute is dead (known finding):
+            # half of the dynamic cases set it, and force a rejected step so that @MaximalTimeStep acts
+            o["mindt"] = draw(st.booleans())
+            if draw(st.booleans()):
+                o["faults"] = [draw(st.integers(0, 20))]
         o["outfreq"] = draw(st.sampled_from(["UserDefinedTimes", "UserDefinedTimes", "EveryPeriod"]))
         return o
 
@@ -87,6 +92,8 @@ def option_lines(case, times):
         dtmin = min(b - a for a, b in zip(times, times[1:]))
         L.append(["@DynamicTimeStepScaling", "true"])
         L.append(["@MaximalTimeStep", g.fmt(o["maxdt_fraction"] * dtmin)])
+        if o.get("mindt"):
+            L.append(["@MinimalTimeStep", g.fmt(1e-9 * dtmin)])
     if o["outfreq"] != "UserDefinedTimes":
         L.append(["@OutputFrequency", "'%s'" % o["outfreq"]])
     return L
@@ -221,20 +228,29 @@ def check_case(case):
 
 
 KNOWN_MISSED_END = "C48.end_of_period_missed.short_period_substepped"
+KNOWN_DYNAMIC = "C48.end_of_period_missed.dynamic_without_minimal_time_step"
 
 
 def check_case_keyed(case):
     """a violation observed at the end of a requested period that is short with respect to the absolute time
     ((te - ti) < 0.05 max(|ti|, |te|)) in a run without dynamic time step scaling that rejected at least one step
-    belongs to the known class 'end of period missed' (see mtest_gen.py / findings/pending/C48.json); every other
-    violation keeps its own key"""
+    belongs to the known class 'end of period missed' (see mtest_gen.py / findings/pending/C48.json); a violation at a
+    requested time of a run with @DynamicTimeStepScaling, no @MinimalTimeStep and a rejected step belongs to the
+    second known class (GenericSolver.cxx:346: the unset minimal time step, -1, enters `dt > te - t - minimal_time_step`,
+    so the last sub-step is not shortened to end at te); every other violation keeps its own key"""
     r = check_case(case)
-    if r.ok or r.key.startswith("C48.harness") or case["opt"].get("dynamic"):
+    if r.ok or r.key.startswith("C48.harness"):
         return r
     times = g.expand_times(case["pb"]["times"])
     tf = getattr(r, "failing_time", None)
     sub = getattr(r, "nsub", None)
     if tf is None or sub == 0:
+        return r
+    if case["opt"].get("dynamic"):
+        # second known class: @DynamicTimeStepScaling without @MinimalTimeStep, after a rejected step
+        if not case["opt"].get("mindt") and any(abs(b - tf) <= 1e-14 * max(abs(t) for t in times) for b in times[1:]):
+            r.msg = "[%s] %s" % (r.key, r.msg)
+            r.key = KNOWN_DYNAMIC
         return r
     for a, b in zip(times, times[1:]):
         if abs(b - tf) <= 1e-14 * max(abs(t) for t in times) and g.is_short_period(a, b):
